@@ -283,8 +283,10 @@ Proof.
     rewrite !skipz_app_sent by (rewrite ?len_app; change (len [41]) with 1; lia).
     replace (skipz k (d ++ [41])) with (skipz k d ++ [41]).
     2:{ unfold skipz, len in *. rewrite skipn_app. replace (Z.to_nat k - length d)%nat with O by lia. reflexivity. }
-    unfold consume_whitespace.
-    destruct (skipz k d) as [|x r]; cbn [app]; rewrite !peekz_0; cbn [option_bind]; auto.
+    unfold escape_ws, consume_newline, consume_whitespace.
+    destruct (skipz k d) as [|x r]; cbn [app]; rewrite !peekz_0; cbn [option_bind]; [cbn; auto|].
+    destruct ((x =? 10) || (x =? 12)); [auto|]. destruct (x =? 13); [|auto].
+    rewrite !peekz_1. destruct r as [|y r]; cbn [app]; rewrite !peekz_0; cbn [option_bind]; [cbn; auto|auto].
   - destruct (192 <=? c1) eqn:E192.
     + rewrite !rune_len_val. cbn [option_bind]. rewrite !len_app. change (len [41; 0]) with 2. change (len [0]) with 1.
       rewrite !len_cons. pose proof (len_nonneg d) as Hd. intros H Hp. some_inv H.
